@@ -470,6 +470,13 @@ def loadfile_rule(repo: Repo, rep: Report, rid: str) -> None:
             ok, why = False, f"'{short(c, 50)}' reads bytes: line endings are not translated"
         if any(k.arg == "newline" for k in c.keywords):
             ok, why = False, f"'{short(c, 50)}' sets newline=: line endings are not translated"
+    loads = [c for c in ast.walk(fi.node) if isinstance(c, ast.Call) and call_name(c) == "load"]
+    kw = fi.node.args.kwarg.arg if fi.node.args.kwarg is not None else None
+    fwd = bool(loads) and all(any(k.arg is None and norm(k.value) == kw for k in c.keywords) for c in loads) if kw else bool(loads)
+    dt = bool(loads) and all(len(c.args) >= 2 or any(k.arg == "deftype" for k in c.keywords) for c in loads)
+    rep.check(fwd and dt, rid, f"{fi.key}:options", "the definition type and the parser options (align, compiled, ...) are handed on to load()",
+              "cstruct.loadfile does not hand its deftype / **kwargs on to load(): loadfile(path, align=True) lays the definitions out packed, the same text "
+              "through load(..., align=True) aligned", fi.loc())
     rep.check(ok, rid, f"{fi.key}:text-mode", "opened in text mode, universal newlines", f"cstruct.loadfile: {why}; a file with Windows line endings keeps its "
               "'\\r', which the line-comment pattern of the parser does not stop at", fi.loc())
 
@@ -493,3 +500,6 @@ def run(repo: Repo, rep: Report, tier: str) -> None:
     identifier_rule(repo, rep, "C13.R12")
     getattr_fold_rule(repo, rep, "C13.R13")
     loadfile_rule(repo, rep, "C13.R14")
+    from .c07 import array_size_text_fold_rule
+
+    array_size_text_fold_rule(repo, rep, "C13.R15")
